@@ -819,8 +819,8 @@ func main() {
 		r.Seed = v.Seed
 	}
 
-	nsc := r.Pick(48, 500)
-	crashBudget := r.Pick(90, 2200) // crash points (each = 2 processes)
+	nsc := r.Pick(48, 1000)
+	crashBudget := r.Pick(90, 5000) // crash points (each = 2 processes)
 	if poolOnly {
 		nsc, crashBudget = r.Pick(14, 120), r.Pick(40, 500)
 	}
